@@ -23,7 +23,8 @@ Proof.
   injection S1 as S1. injection S2 as S2.
   pose proof (tenc_fixed_bits _ e1 (W r1 H1)) as F1. pose proof (tenc_fixed_bits _ e2 (W r2 H2)) as F2.
   rewrite S1 in F1. rewrite S2 in F2.
-  pose proof (sigs_pairwise_sound _ _ _ _ rows_pairwise (in_map row_sig rows r1 H1) (in_map row_sig rows r2 H2)) as P.
+  destruct (sigs_tails_sound _ _ _ _ rows_pairwise (in_map row_sig rows r1 H1) (in_map row_sig rows r2 H2)) as [Eq | P].
+  { left. unfold row_sig in Eq. inversion Eq. reflexivity. }
   destruct (sig_ok_cases _ _ _ P) as [E | [C | O]]; [left; exact E | | right; exact O].
   exfalso. unfold sig_conflict in C. apply negb_true_iff in C. apply Z.eqb_neq in C.
   exact (fixed_conflict_disjoint _ _ _ _ w w F1 F2 C eq_refl).
